@@ -375,7 +375,7 @@ pub fn gen_read_scn(id: &str, rng: &Rng, tier: Tier) -> ReadScn {
                         Fmt::Fastq => input.extend_from_slice(b"@a\nC\n+\nI\n"),
                     }
                 }
-                let cfg = Cfg { cap: rng.range(64, 4096), policy: PolicySpec::Std, script: vec![], cuts: vec![], faults: vec![], intr_burst: None };
+                let cfg = Cfg { cap: rng.range(64, 4096), policy: PolicySpec::Std, script: vec![], cuts: vec![], faults: vec![], intr_burst: None, lift: None };
                 let mut ops = ops_next_to_end(k);
                 // and a few seeks far into the file
                 for _ in 0..6 {
@@ -414,6 +414,15 @@ pub fn gen_read_scn(id: &str, rng: &Rng, tier: Tier) -> ReadScn {
                 let est_calls = 2 * input.len() / cfg.cap.max(1) + 6;
                 cfg.faults.push(Fault { call: rng.small(est_calls), kind: rng.pick(FAULT_KINDS).to_string(), payload: gen_payload(rng) });
             }
+            let mut later_policy = None;
+            if id == "C05" && rng.chance(1, 5) {
+                // "from any reader state": also after a size-limit refusal, and after the caller has
+                // reacted to one by installing a more permissive policy
+                cfg.policy = gen_refusing_policy(rng, cfg.cap);
+                if rng.chance(1, 2) {
+                    later_policy = Some(gen_permissive_policy(rng, input.len()));
+                }
+            }
             let m = model::build(fmt, &input);
             let n = m.items.len();
             let mix = if id == "C04" {
@@ -431,6 +440,10 @@ pub fn gen_read_scn(id: &str, rng: &Rng, tier: Tier) -> ReadScn {
                 // a (growing) policy installed in mid-stream must not disturb positions or the stream
                 let at = rng.below(ops.len() as u64 + 1) as usize;
                 ops.insert(at, Op::SetPolicy(gen_permissive_policy(rng, input.len())));
+            }
+            if let Some(p) = later_policy {
+                let at = rng.below(ops.len() as u64 + 1) as usize;
+                ops.insert(at, Op::SetPolicy(p));
             }
             if id == "C04" && rng.chance(1, 6) && n > 1 {
                 // a second reader on (a tail of) the same input, re-using the record sets
@@ -476,7 +489,7 @@ pub fn gen_read_scn(id: &str, rng: &Rng, tier: Tier) -> ReadScn {
             if id == "C19" && rng.chance(1, 300) {
                 // several KiB inside one reader buffer; record sets that start far from offset 0
                 let input = many_small_records(rng, fmt, rng.range(9000, 20000));
-                let cfg = Cfg { cap: rng.range(8192, 16384), policy: PolicySpec::Std, script: vec![], cuts: vec![], faults: vec![], intr_burst: None };
+                let cfg = Cfg { cap: rng.range(8192, 16384), policy: PolicySpec::Std, script: vec![], cuts: vec![], faults: vec![], intr_burst: None, lift: None };
                 let mut ops = vec![];
                 for _ in 0..rng.range(3, 12) {
                     for _ in 0..rng.range(0, 60) {
